@@ -246,6 +246,10 @@ func init() {
 				cases, results := c.replay("engine", r.cases, replayOpts{})
 				c.judge("engine", cases, results, func(cs, res map[string]J) string { in, _ := res["input"].(string); return in })
 			}
+			// the clause in a text whose initialization goal binds variables named like the clause's and then observes the clause
+			ri := c.mcHolds("GenClause", "GenClause_init.cfg", tlcOpts{})
+			ci, resi := c.replay("engine", ri.cases, replayOpts{opts: map[string]string{"directive": "1"}})
+			c.judge("engine", ci, resi, func(cs, res map[string]J) string { in, _ := res["input"].(string); return in + " (init)" })
 			// instruction level: the head phase of the real VM on the activations of GenHead's programs and of seeded random programs,
 			// validated by TLC against ZipVM.tla (conformance) and against unification with the decompiled head (meaning)
 			hz := c.mcHolds("GenHead", "GenHead.cfg", tlcOpts{})
